@@ -576,7 +576,8 @@ def gen_c11(tier, seed, env_text):
             cases.append({"funcs": [use2], "other": [o_mk], "other_first": first, "strategy": "REPLICATE", "k": 0,
                           "family": "c11_parameterless_function_returning_own_class"})
     # replicated source annotations that are strings / NewTypes / classes of other modules (no trace for that position)
-    for ann in ("'Own'", "ExtId", "zutil.A", "Optional['Own']", "List[ExtId]"):
+    for ann in ("'Own'", "ExtId", "zutil.A", "Optional['Own']", "List[ExtId]", "zutil.Reg.Slot[int]", "List[zutil.Reg.Slot[zutil.A]]",
+                "zutil.Outer.Inner", "Dict[str, zutil.Outer.Inner]"):
         f = {"name": "ann_" + str(abs(hash(ann)) % 1000), "container": [], "fkind": "module",
              "params": [{"name": "a", "kind": "poskw", "default": None, "ann": ann}, {"name": "b", "kind": "poskw", "default": None}],
              "ret_ann": ann, "traces": [{"args": {"b": INT}, "ret": None, "yld": None}]}
@@ -646,8 +647,10 @@ def signature(pid, clause, rec, case):
             cause = "other"
         sig["cause"] = cause
         if cause == "other":
-            sig["unresolved"] = sorted(unres)[:3]
-            sig["modules"] = sorted(mods)
+            import re
+            gen = lambda x: re.sub(r"mtg_\d+_\d+", "mtg", x)  # noqa: E731   (generated module names differ per process)
+            sig["unresolved"] = sorted({gen(x) for x in unres})[:3]
+            sig["modules"] = sorted({gen(x) for x in mods})
     return sig
 
 
@@ -723,7 +726,7 @@ def _collect_mods(t, acc):
 def main(pid, tier, seed, replay=None):
     core.use_repo()
     envgen.load_fixture_classes()
-    for m in ("zutil", "zpkg", "zpkg.zutil", "zfoo", "barzfoo", "zfoo_v2", "ztarget", "zmytyping"):
+    for m in ("zutil", "zpkg", "zpkg.zutil", "zfoo", "barzfoo", "zfoo_v2", "ztarget", "zmytyping", "_zledger"):
         mod = importlib.import_module(m)
         for v in vars(mod).values():
             if isinstance(v, type):
